@@ -1,7 +1,8 @@
 /-
   Driver, suite `arena`, request `arena refine <history>`: the refinement of the pointer-level arena
   to the forest model (`Model/Forest.lean`), CHECKED at run time on every history the suite
-  generates (the proofs in `Lemmas/Arena*.lean` stop at the list level `Arena.Shape`).
+  generates — the executable counterpart of `C04_arena_refines_forest` (`Lemmas/ArenaSim.lean`), with
+  `Forest.isRemoved` against `NodeId::is_removed` on top, and on the real crate's histories.
 
   The history is replayed on the arena model and, in parallel, on a `Forest` through the
   primitives `newNode`, `detachRaw`, `checkedAppend`, `checkedPrepend`, `checkedInsertAfter`,
